@@ -176,6 +176,37 @@ Proof.
   destruct (N.eqb_spec 85 c) as [<-|]; [reflexivity|discriminate].
 Qed.
 
+(* without a modifier that starts with U there is no :U in the chain *)
+Lemma no_U_keeps_empty ms : has_modifier s_U ms = false -> forallb keeps_empty (map classify_mod ms) = true.
+Proof.
+  unfold has_modifier. induction ms as [|m ms IH]; [reflexivity|]. cbn [existsb map forallb]. intros H.
+  apply orb_false_iff in H as [Hm H]. rewrite (IH H), andb_true_r.
+  unfold has_prefix, s_U in Hm. destruct m as [|c m']; [reflexivity|]. cbn [strip_prefix] in Hm.
+  destruct (N.eqb_spec 85 c) as [<-|Hc]; [discriminate|].
+  destruct (classify_mod (c :: m')) as [? | ? | | d | ?] eqn:E; try reflexivity.
+  (* classify_mod gives :U only for a modifier that starts with U *)
+  exfalso. apply Hc. unfold classify_mod in E.
+  repeat match type of E with
+         | context [match ?x with _ => _ end] => destruct x; try discriminate E
+         end.
+  reflexivity.
+Qed.
+
+(* a pattern that simplifyWord does not take for a number is not one *)
+Lemma numeric_head_false_not_number pat :
+  numeric_head pat = false -> forallb (in_set lit_pattern_set) pat = true -> pat <> [] ->
+  try_parse_number pat = None.
+Proof.
+  destruct pat as [|c r]; [congruence|]. intros Hn Hl _.
+  cbn [forallb] in Hl. apply andb_true_iff in Hl as [Hc _].
+  assert (Hsp : is_cspace c = false).
+  { pose proof (lit_pattern_wordlike [c]) as W. cbn [forallb] in W. rewrite Hc in W.
+    specialize (W eq_refl). apply wordlike_cons in W as [W _]. exact W. }
+  apply head_not_number. unfold head_ok. rewrite Hsp.
+  unfold numeric_head, in_set, numeric_head_set in Hn. cbn [existsb] in Hn.
+  unfold is_digit. lia.
+Qed.
+
 Lemma from_cond_shape neg fe positive v prefix pat :
   from_cond neg fe positive v prefix pat =
   from_shape neg fe v (map classify_mod prefix ++ [if positive then ModM pat else ModN pat]).
@@ -190,6 +221,8 @@ Lemma simplify_word_inv cx v mods fe neg rw :
     is_list (cx_var cx v) = No /\
     (positive = false -> is_defined (cx_seen_prefs cx) (cx_var cx v) = true) /\
     (positive = false -> removelast mods = []) /\
+    (fe = false -> numeric_head pat = false) /\
+    forallb (in_set lit_pattern_set) pat = true /\
     let add_u := negb (is_defined (cx_seen_prefs cx) (cx_var cx v)) && negb (has_modifier s_U mods) in
     rw_kind rw = KWord /\
     rw_from_c rw = Some (from_shape neg fe v
@@ -204,6 +237,7 @@ Proof.
   destruct (negb ok || negb positive && negb (Nat.eqb (length mods) 1) || negb exact
             || match pattern with [] => true | _ => false end) eqn:E1; [contradiction|].
   destruct (negb (forallb (in_set lit_pattern_set) pattern)) eqn:E2; [contradiction|].
+  destruct (numeric_head pattern && negb fe) eqn:Enum; [contradiction|].
   destruct (negb (is_defined (cx_seen_prefs cx) (cx_var cx v)) && negb positive) eqn:E3; [contradiction|].
   intros [<-|[]].
   apply orb_false_iff in E1 as [E1 Ene]. apply orb_false_iff in E1 as [E1 Eex].
@@ -220,6 +254,8 @@ Proof.
   split.
   { intros ->. simpl in Elen. apply negb_false_iff in Elen. apply Nat.eqb_eq in Elen.
     subst mods. destruct mods'; [reflexivity|discriminate]. }
+  split; [intros ->; destruct (numeric_head pattern); [discriminate|reflexivity]|].
+  split; [exact E2|].
   cbv zeta. split; [reflexivity|]. split; [reflexivity|].
   cbn [rw_to_c]. unfold u_mods, rhs_leaf.
   destruct (negb (is_defined (cx_seen_prefs cx) (cx_var cx v)) && negb (has_modifier s_U mods));
@@ -257,7 +293,8 @@ Lemma simplify_yesno_inv cx v mods fe neg rw :
     last mods [] = (if positive then 77 else 78) :: pat /\ mods <> [] /\
     yn_pattern pat ls /\ ls <> [] /\
     is_list (cx_var cx v) = No /\
-    (positive = false -> is_defined (cx_seen_prefs cx) (cx_var cx v) = true) /\
+    (positive = false -> is_defined (cx_seen_prefs cx) (cx_var cx v) = true /\ fe = true
+                         /\ vi_nonempty_if_defined (cx_var cx v) = true) /\
     (positive = false -> removelast mods = []) /\
     let add_u := negb (is_defined (cx_seen_prefs cx) (cx_var cx v)) && negb (has_modifier s_U mods) in
     rw_kind rw = KYesNo /\
@@ -272,7 +309,8 @@ Proof.
   destruct (match_match (last mods [])) as [[[ok positive] pattern] exact] eqn:Emm.
   destruct (negb ok || negb positive && negb (Nat.eqb (length mods) 1) || exact) eqn:E1; [contradiction|].
   destruct (to_lower_pat pattern) as [|l0 ls0] eqn:Elow; [contradiction|].
-  destruct (negb (is_defined (cx_seen_prefs cx) (cx_var cx v)) && negb positive) eqn:E3; [contradiction|].
+  destruct (negb positive && negb (is_defined (cx_seen_prefs cx) (cx_var cx v) && fe
+                                   && vi_nonempty_if_defined (cx_var cx v))) eqn:E3; [contradiction|].
   cbn [fst]. intros [<-|[]].
   apply orb_false_iff in E1 as [E1 Eex]. apply orb_false_iff in E1 as [Eok Elen].
   apply negb_false_iff in Eok.
@@ -281,7 +319,9 @@ Proof.
   split; [exact Hlast|]. split; [discriminate|].
   split; [rewrite <- Elow; apply to_lower_pat_yn; rewrite Elow; discriminate|].
   split; [discriminate|]. split; [reflexivity|].
-  split; [intros ->; destruct (is_defined (cx_seen_prefs cx) (cx_var cx v)); [reflexivity|discriminate]|].
+  split.
+  { intros ->. cbn [negb andb] in E3. apply negb_false_iff in E3.
+    apply andb_true_iff in E3 as [E3 E3c]. apply andb_true_iff in E3 as [E3a E3b]. auto. }
   split.
   { intros ->. simpl in Elen. apply negb_false_iff in Elen. apply Nat.eqb_eq in Elen.
     subst mods. destruct mods'; [reflexivity|discriminate]. }
@@ -324,7 +364,8 @@ Qed.
 Lemma check_and_inv cs rw :
   In rw (check_and cs) ->
   exists v ms, cs = [MDefined v; MNot (MEmpty v ms)] /\ rw_kind rw = KAnd /\
-               rw_from rw = s_defined_lp ++ v ++ s_rp_and /\ rw_to rw = [].
+               rw_from rw = s_defined_lp ++ v ++ s_rp_and /\ rw_to rw = [] /\
+               has_modifier s_U ms = false.
 Proof.
   unfold check_and.
   repeat match goal with
@@ -332,6 +373,7 @@ Proof.
            lazymatch type of x with bool => fail | _ => destruct x; try contradiction end
          end.
   match goal with |- In _ (if ?c then _ else _) -> _ => destruct c eqn:E; [|contradiction] end.
-  intros [<-|[]]. apply andb_true_iff in E as [E _]. apply str_eqb_spec in E. subst.
-  do 2 eexists. repeat split; reflexivity.
+  intros [<-|[]]. apply andb_true_iff in E as [E EU]. apply andb_true_iff in E as [E _].
+  apply str_eqb_spec in E. apply negb_true_iff in EU. subst.
+  do 2 eexists. repeat split; try reflexivity. exact EU.
 Qed.
